@@ -1,11 +1,13 @@
 package kmodel
 
 import (
+	"context"
 	"errors"
 	"fmt"
 	"os"
 	"sort"
 	"strings"
+	"time"
 
 	"github.com/openziti/storage/boltz"
 	"go.etcd.io/bbolt"
@@ -42,6 +44,7 @@ func (o Op) String() string {
 // Engine owns one database, the stores, and the reference model.
 type Engine struct {
 	idBuf, otherBuf []byte // reused id buffers of the single-link calls
+	txCount         int
 
 	C    *core.Ctx
 	Cfg  Config
@@ -272,10 +275,29 @@ func (e *Engine) RunTx(ops []Op, keyPrefix string) *TxResult {
 		return res
 	}
 	mismatch := false
-	err := e.Db.Update(nil, func(ctx boltz.MutateContext) error {
+	// every fifth transaction carries a context.Context that is already cancelled or past its deadline (the request
+	// behind it timed out, the caller goes on and commits): what the operations do does not depend on it - unless they
+	// report the context's error, which makes the caller roll back
+	var callerCtx boltz.MutateContext
+	e.txCount++
+	if e.txCount%5 == 0 {
+		cc, cancel := context.WithCancel(context.Background())
+		if e.txCount%10 == 0 {
+			cc, cancel = context.WithDeadline(context.Background(), time.Unix(1, 0))
+		}
+		cancel()
+		callerCtx = boltz.NewMutateContext(cc)
+		e.C.Count("transactions_under_a_cancelled_context", 1)
+	}
+	err := e.Db.Update(callerCtx, func(ctx boltz.MutateContext) error {
 		for i := range planned {
 			op := &planned[i]
 			err := e.Apply(ctx, op)
+			if callerCtx != nil && err != nil && (errors.Is(err, context.Canceled) || errors.Is(err, context.DeadlineExceeded)) {
+				res.FailedAt = i
+				expectFail = true
+				return err
+			}
 			got := classify(err)
 			e.C.Eval()
 			e.C.Cover("op_outcome", op.Kind+":"+op.Exp)
